@@ -139,6 +139,10 @@ def cases(draw, tier):
             have_sib = True
         if draw(st.integers(0, 9)) == 0:
             hist.append({"op": "deficient_instance"})
+        if draw(st.integers(0, 7)) == 0:
+            # the state is assigned from outside (documented setters / the model field): listeners attached earlier or later
+            # serve every state of the machine, wherever it is put
+            hist.append({"op": "write", "via": draw(st.sampled_from(["model", "csv", "cs"])), "state": draw(st.integers(0, 4))})
         if have_sib and draw(st.integers(0, 3)) == 0:
             step = dict(step, target="sib")
         hist.append(step)
